@@ -263,6 +263,12 @@ def r_arr(case):
 class C09(Prop):
   id = 'C09'
   lean_module = 'DK.Props.C09'
+  uses_t1 = True      # T1v regenerates DK/Gen/Vec.lean from the current source before the bridge is audited
+  bridge_vec = ['DK.BridgeVec.utils_power_matrix', 'DK.BridgeVec.utils_sustainment_matrix', 'DK.BridgeVec.utils_base_soc',
+                'DK.BridgeVec.utils_soc', 'DK.BridgeVec.SDevice_base', 'DK.BridgeVec.SDevice_charge_at',
+                'DK.BridgeVec.SDevice_charge_at_lossless', 'DK.BridgeVec.SDevice_constraints_soc',
+                'DK.BridgeVec.TDevice_make_t_base', 'DK.BridgeVec.TDevice_t_base', 'DK.BridgeVec.TDevice_r2t']      # T1v: vector method bodies (vk/translate_vec.py, DK/Lemmas/BridgeVec.lean)
+  bridge = bridge_vec
   theorems = ['DK.C09.soc_zero', 'DK.C09.soc_succ', 'DK.C09.effPow_charge', 'DK.C09.effPow_discharge', 'DK.C09.flow_zero',
               'DK.C09.chargeAt_zero', 'DK.C09.chargeAt_succ', 'DK.C09.socDot_eq_chargeAt',
               'DK.C09.r2t_zero', 'DK.C09.r2t_succ', 'DK.C09.tBase_eq_r2t_zero_flow']
